@@ -1,7 +1,9 @@
-(* C18, part 1: StorageMapping.__getitem__ resolves every role, independently, to the longest
-   prefix of the key that defines it. *)
+(* C18, part 1: StorageMapping.__getitem__ - the function GENERATED into Gen/StorageMap.v from
+   index/index.py - resolves every role, independently, to the longest prefix of the key that
+   defines it.  Every lemma here is about the generated definitions (matches, sm_sort,
+   resolve_loop, getitem): a change of the source that changes them breaks these proofs. *)
 From Coq Require Import NArith List Bool Lia Sorted Arith.
-From DvcData Require Import Base.Val Model.Transfer Model.PushFetch.
+From DvcData Require Import Base.Val Model.Transfer Gen.StorageMap Model.PushFetch.
 Import ListNotations.
 Local Open Scope nat_scope.
 
@@ -73,7 +75,7 @@ Qed.
 Definition hits (m : smap) (k : key) : list (key * sinfo) := filter (fun ps => matches (fst ps) k) m.
 
 Lemma getitem_first m k si rho : is_role rho ->
-  getitem m k = Some si -> rho si = first_some rho (sort_desc (hits m k)).
+  getitem m k = Some si -> rho si = first_some rho (sm_sort (hits m k)).
 Proof.
   intros Hr H. unfold getitem in H. fold (hits m k) in H.
   destruct (hits m k) as [|h0 hr] eqn:E; [discriminate|].
@@ -88,28 +90,29 @@ Qed.
 (* ---- the sort ---- *)
 Definition lenge (a b : key * sinfo) : Prop := length (fst b) <= length (fst a).
 
-Lemma insert_In x y l : In x (insert_desc y l) <-> x = y \/ In x l.
+Lemma insert_In x y l : In x (sm_insert y l) <-> x = y \/ In x l.
 Proof.
   induction l as [|z r IH]; simpl.
   - intuition.
-  - destruct (Nat.ltb (length (fst z)) (length (fst y))); simpl; rewrite ?IH; intuition.
+  - destruct (Nat.leb (length (fst z)) (length (fst y))); simpl; rewrite ?IH; intuition.
 Qed.
-Lemma sort_In x l : In x (sort_desc l) <-> In x l.
+Lemma sort_In x l : In x (sm_sort l) <-> In x l.
 Proof.
   induction l as [|z r IH]; simpl; [tauto|]. rewrite insert_In, IH. intuition.
 Qed.
-Lemma insert_sorted y l : StronglySorted lenge l -> StronglySorted lenge (insert_desc y l).
+Lemma insert_sorted y l : StronglySorted lenge l -> StronglySorted lenge (sm_insert y l).
 Proof.
   induction l as [|z r IH]; simpl; intros H.
   - constructor; constructor.
   - inversion H as [|? ? Hr Hz]; subst.
-    destruct (Nat.ltb (length (fst z)) (length (fst y))) eqn:E.
-    + apply Nat.ltb_lt in E. constructor; auto. constructor; [unfold lenge; lia|].
+    destruct (Nat.leb (length (fst z)) (length (fst y))) eqn:E.
+    + apply Nat.leb_le in E. constructor; auto. constructor; [unfold lenge; lia|].
       rewrite Forall_forall in *. intros w Hw. specialize (Hz w Hw). unfold lenge in *. lia.
-    + apply Nat.ltb_ge in E. constructor; auto.
+    + apply Nat.leb_gt in E. constructor; auto.
       rewrite Forall_forall in *. intros w Hw. apply insert_In in Hw. destruct Hw as [->|Hw]; auto.
+      unfold lenge. lia.
 Qed.
-Lemma sort_sorted l : StronglySorted lenge (sort_desc l).
+Lemma sort_sorted l : StronglySorted lenge (sm_sort l).
 Proof. induction l; simpl; [constructor|now apply insert_sorted]. Qed.
 
 Lemma first_some_sorted rho l : StronglySorted lenge l -> forall x, first_some rho l = Some x ->
@@ -170,7 +173,7 @@ Proof.
       assert (Hin : In (p, s) (hits m k)) by (rewrite E; left; auto).
       apply hits_In in Hin. destruct Hin as [H1 H2]. rewrite (H p s H1) in H2. discriminate.
   - intros si Hg. rewrite (getitem_first m k si rho Hr Hg).
-    assert (Hmax : forall x, first_some rho (sort_desc (hits m k)) = Some x -> exists p, longest rho m k p x).
+    assert (Hmax : forall x, first_some rho (sm_sort (hits m k)) = Some x -> exists p, longest rho m k p x).
     { intros x H. destruct (first_some_sorted rho _ (sort_sorted _) x H) as [p [s [H1 [H2 H3]]]].
       apply sort_In, hits_In in H1. destruct H1 as [H1 H1'].
       exists p. split; [exists s; auto|].
@@ -179,18 +182,18 @@ Proof.
     split.
     + intros x. split; [apply Hmax|].
       intros [p [[s [A [B C]]] HL]].
-      destruct (first_some rho (sort_desc (hits m k))) as [y|] eqn:E.
+      destruct (first_some rho (sm_sort (hits m k))) as [y|] eqn:E.
       * destruct (Hmax y eq_refl) as [p1 [[s1 [A1 [B1 C1]]] HL1]].
         assert (L1 : length p <= length p1) by (apply (HL1 p x); exists s; auto).
         assert (L2 : length p1 <= length p) by (apply (HL p1 y); exists s1; auto).
         assert (p = p1) by (apply (matches_same_len p p1 k); auto; lia). subst p1.
         rewrite (nodup_fst_inj m p s s1 Hn A A1) in C. congruence.
       * exfalso. rewrite first_some_none in E.
-        assert (In (p, s) (sort_desc (hits m k))) by (apply sort_In, hits_In; auto).
+        assert (In (p, s) (sm_sort (hits m k))) by (apply sort_In, hits_In; auto).
         rewrite (E p s H) in C. discriminate.
     + rewrite first_some_none. split.
       * intros H p x [s [A [B C]]].
-        assert (In (p, s) (sort_desc (hits m k))) by (apply sort_In, hits_In; auto).
+        assert (In (p, s) (sm_sort (hits m k))) by (apply sort_In, hits_In; auto).
         rewrite (H p s H0) in C. discriminate.
       * intros H p s Hin. apply sort_In, hits_In in Hin. destruct Hin as [A B].
         destruct (rho s) as [x|] eqn:E; auto. exfalso. apply (H p x). exists s. auto.
